@@ -8,6 +8,11 @@ HOOK_COMMITS = ["204cfe3", "2edc694", "e1d8638"]
 
 # id -> (category, technique, level text, level note, design ref)
 CHECKS = {
+ "C13": ("fault_enumeration",
+         "runtime monitoring of the real FileSystemDirectory.Persist under an enumerated grid of item sizes, pre-existing file states and fault placements, with os-level observation and fault injection through a go build -overlay copy of os.File (Write/Sync/Close/Truncate hooks)",
+         "Every cell of the grid (7 sizes x 3 chunkings x 4 pre-existing states x {no fault, item writer failing after k bytes, cancellation after k bytes, os write failing after a partial write, os Sync failing, os Close failing} with k over a boundary set x both item kinds, plus a real ice segment and a real snapshot) is executed against the real directory; success requires byte-exact content and an observed successful Sync after the last write and before return; failure requires that nothing is left under the name. Exhaustive over the grid.",
+         "Trusts: the os overlay (hooks inserted into copies of os/file.go and os/file_posix.go for this build only); a returned fsync means durable; directory entries durable at completion.",
+         "DESIGN.md §4 C13"),
  "C12": ("exploration",
          "runtime oracle on the real encoder/decoder (round trip of generated snapshots) + hostile-input monitoring in child processes: every truncation / bit flip / tail / length attack of a real snapshot file opened through OpenReader and OpenWriter with both loaders, allocation measured, faults observed as child deaths",
          "Generated snapshots (0..300 segments, ids to 2^64-1, bitmaps to thousands of entries, encodings well beyond the 4096-byte read buffer) must read back equal; every damaged variant of the newest snapshot of a real directory must be rejected without a fault, within an allocation budget, and lead to the older intact snapshot (epoch and content checked); decoder-level attacks run straight into ReadFrom under an address-space limit. Exhaustive over truncations and single-bit flips of the file used; sampled otherwise.",
